@@ -1,0 +1,7 @@
+//go:build !verif
+// +build !verif
+
+package overloader
+
+// verifGate is a no-op outside verif builds (see verif_hooks.go).
+func verifGate(point string) {}
